@@ -1,8 +1,9 @@
 """Property -> units / harnesses / stated assumptions.  Units are /verif/units/<name>.vrs."""
 
 UNIT_NOTES = {
+    "codec_trace": "C14 record codec of the recursive TraceED (enc / dec read off the real impls, N37); Vec<TraceED> is an assumed leaf here",
     "dbslot": "C09 engine database slot: the three closures that run the EVM (read_contract, read_contract_multi, add_tx_to_block) lifted into functions; mem::take ... mem::swap puts the database back on every exit path",
-    "codec": "L1 codecs against injected enc/dec: real impl bodies of u8, Option<T>, (T,U) (=> codec_ok lemmas); Vec<T> and BlockHistoryCacheData<V> encode/decode bodies verified as free functions with sequence / map level round-trip lemmas (Vec and BTreeMap have no extensional equality in vstd)",
+    "codec": "L1 codecs against injected enc/dec: real impl bodies of u8, Option<T>, (T,U), Vec<T> (=> codec_ok / codec_law lemmas); BlockHistoryCacheData<V> encode/decode bodies with map level round-trip lemmas; record codecs AccountInfoED, LogED, TxED, TxReceiptED with enc / dec read off the real impls on every run (N37) and the generated law lemmas prop_record_<S>",
     "scalars": "L5 scalar kernels: get_gas_limit, get_inscription_byte_len, get_evm_spec, use_rlp_hash_for_tx_hash, generate_block_hash (+ lemma: parked transactions keep at most their allowance)",
     "precompile": "C09 build_lock_script of the locked-pkscript helper: panic-freedom for every pkscript and lock count",
     "evmctx": "C19 engine/evm.rs get_evm over shim structs with revm's public field names",
@@ -156,12 +157,12 @@ PROPS["C19"] = {
 }
 
 PROPS["C14"] = {
-    "units": ["codec"],
+    "units": ["codec", "codec_trace"],
     "kani": ["u64_roundtrip", "u64_order", "u32_roundtrip", "u64ed_matches_u64", "option_u64_roundtrip", "tuple_u64_u32_roundtrip"],
     "kani_thorough": ["u128ed_roundtrip", "u128ed_order", "nidx_key_order"],
-    "level_text": "Verus (unbounded): real impl bodies of the u8 / Option<T> / (T,U) codecs satisfy `encode appends exactly enc(v)` and `decode returns dec(bytes, offset)`, with the round-trip law codec_ok (decode of an encoding anywhere inside a buffer gives the value back and consumes exactly its bytes: lossless and self-delimiting) proved generically; Vec<T> (u32 length prefix) and BlockHistoryCacheData<V> encode/decode bodies verified with round-trip lemmas over element sequences / version maps. Kani: complete CBMC proofs (all 2^64 / 2^128 values, unwinding assertions on) on the REAL codec files included by path: u64/u32 big-endian round trip with exact consumption inside a larger buffer, u64 order and injectivity of the encoding, U64ED encoding identical to u64 (block tables mix them), U128ED round trip and order, (block,index) composite key order, Option tag byte, tuple concatenation.",
-    "level_note": "Trusted: CBMC 6.11 / Kani 0.68 models of alloc and core, alloy-primitives 1.4.1 Uint::{as_limbs,from_limbs,from} as compiled. Harnesses are loop-free or bounded by the constant encoding width with unwinding assertions, hence complete, not bounded. In the Verus unit u32/u64 are assumed impls over be4/be8 (their laws are the Kani results). NOT covered: [T;N] / String / struct codecs (TxED, LogED, ...), U256/U512/Address/B256, RawBlock (alloy RLP), BytecodeED, the serde/JSON half of the statement.",
-    "assumptions": ["struct codecs and wide integer / byte-array types not under proof", "serde/JSON round trip outside both tools", "Vec / history round trips are at sequence / map level (no extensional equality for Vec, BTreeMap in vstd)"],
+    "level_text": "Verus (unbounded): real impl bodies of the u8 / Option<T> / (T,U) codecs satisfy `encode appends exactly enc(v)` and `decode returns dec(bytes, offset)`, with the round-trip law codec_ok (decode of an encoding anywhere inside a buffer gives the value back and consumes exactly its bytes: lossless and self-delimiting) proved generically; Vec<T> (u32 length prefix) encode/decode bodies verified as trait impls, BlockHistoryCacheData<V> encode/decode bodies verified with round-trip lemmas over version maps; the law with a domain (codec_law: every storable value decodes back to itself, consuming exactly its bytes, anywhere in a buffer) proved for Option / pair / Vec and, by rule N37, for the record codecs AccountInfoED, LogED, TxED, TxReceiptED and TraceED: their abstract encoding and decoder are READ OFF the real Encode / Decode impls statement by statement on every run, both real bodies are verified against them, and the law is a generated lemma prop_record_<S> that fails as soon as encoder and decoder disagree in field list, field order or field type (a consistent change of both keeps verifying). Kani: complete CBMC proofs (all 2^64 / 2^128 values, unwinding assertions on) on the REAL codec files included by path: u64/u32 big-endian round trip with exact consumption inside a larger buffer, u64 order and injectivity of the encoding, U64ED encoding identical to u64 (block tables mix them), U128ED round trip and order, (block,index) composite key order, Option tag byte, tuple concatenation.",
+    "level_note": "Trusted: CBMC 6.11 / Kani 0.68 models of alloc and core, alloy-primitives 1.4.1 Uint::{as_limbs,from_limbs,from} as compiled. Harnesses are loop-free or bounded by the constant encoding width with unwinding assertions, hence complete, not bounded. In the Verus unit u32/u64 are assumed impls over be4/be8 (their laws are the Kani results). In the record lemmas the leaf codecs (U64ED, U8ED, U256ED, B256ED, B2048ED, AddressED, BytesED, String) are assumed to satisfy the law (the fixed-width ones are the Kani results); Vec values are identified with their element sequences (axiom_vec_ext / axiom_vec_of: vstd gives Vec no extensional equality); TraceED.calls: Vec<TraceED> is an assumed leaf in unit codec_trace (recursive type: its law is the induction hypothesis); fields a decoder re-creates instead of reading (TxED.chain_id / tx_type, TxReceiptED.effective_gas_price / transaction_type) are part of the domain of the law (the value must carry what the decoder re-creates; the constructors that guarantee it are not under proof). NOT covered: [T;N], BlockResponseED (Either + decode through ::new), RawBlock (alloy RLP), BytecodeED, BytesED / String bodies, U256/U512/Address/B256 bodies, the serde/JSON half of the statement.",
+    "assumptions": ["leaf codecs of the records (U64ED, U8ED, U256ED, B256ED, B2048ED, AddressED, BytesED, String) assumed to satisfy codec_law; fixed-width ones proved by Kani", "Vec values identified with their element sequences (axiom_vec_ext, axiom_vec_of)", "law of Vec<TraceED> assumed in unit codec_trace (induction hypothesis of a recursive type)", "stored TxED / TxReceiptED values carry the field values the decoder re-creates (set by ::new, not under proof)", "BlockResponseED, RawBlock, BytecodeED, [T;N] and wide integer / byte-array bodies not under proof", "serde/JSON round trip outside both tools", "history round trip is at map level (no extensional equality for BTreeMap in vstd)"],
 }
 
 NOT_APPLICABLE = {
